@@ -451,7 +451,7 @@ for _k, _v in ROUND8.items():
 ROUND9 = {
     'C02': 'Covariate models with partial selections in the hand-written reference.',
     'C07': 'The model is used (value and sensitivities) between two selections.',
-    'C08': 'Dictionaries that name the parameters in another order than the model; the native wrapper witnesses also run on their own (set_n_ids while something is fixed, PredictiveModel samples after re-fix histories); a wrapper exception on a valid history is a refutation.',
+    'C08': 'Dictionaries that name the parameters in another order than the model; the native wrapper witnesses also run on their own (set_n_ids while something is fixed, PredictiveModel samples after re-fix histories); a wrapper exception on a valid history is a refutation; set_n_ids through the wrapper after the wrapped model was re-configured elsewhere.',
     'C11': 'Bounded: names, counts and simulation do not depend on the routes that were set before the final administration.',
     'C12': 'Bounded: composed filters of real sub-filters of every class and configuration (mixture filters with different numbers of kernels) score the sum of their parts.',
     'C18': 'Optimisation with runs that break: reported as missing, never as the numbers of another run.',
